@@ -223,6 +223,15 @@ def handle (s : Sess) (line : String) : IO Sess := do
       match parseG? p, parseVec? pt with
       | some p, some pt => IO.println ("geval " ++ showGQ (polynomialEvaluate s.clmo p pt)); return s
       | _, _ => bad
+  | ["gjac", md, sg], [p] =>
+      match md.toNat?, parseG? p with
+      | some md, some p =>
+          IO.println ("gjac " ++ " @ ".intercalate ((polynomialJacobian s.clmo (parseSigma sg) p md).map showG)); return s
+      | _, _ => bad
+  | ["gdeg"], [p] =>
+      match parseG? p with
+      | some p => IO.println s!"gdeg {polynomialDegree p} {polynomialTotalDegree 30 p}"; return s
+      | _ => bad
   | ["sublin", md, sg], [p, C] =>
       match md.toNat?, parseG? p, parseMat? C with
       | some md, some p, some C =>
